@@ -194,7 +194,9 @@ def EvOk (e : Ev) (pre : List Ev) : Prop :=
   | .enter k _ _ fl occ =>
       (fl % 2 = 1 → ∃ pre', pre = Ev.fire k occ :: pre') ∧
       (fl = EV_UNBIND → ∃ pre' fl', pre = Ev.unbindReq k :: pre' ∧ boundIn pre k fl' ∧ fl'.unbind = true)
-  | .bound k _ _ _ _ => ∀ e ∈ pre, e.key? ≠ some k
+  | .bound k id _ _ _ =>
+      (∀ e ∈ pre, e.key? ≠ some k) ∧ 1 ≤ id ∧
+      (∀ k' id' ev' f' fl', Ev.bound k' id' ev' f' fl' ∈ pre → liveAt pre k' → id' ≠ id)
   | _ => True
 
 def TraceOk : List Ev → Prop
@@ -254,11 +256,11 @@ theorem bound_unique {log : List Ev} (ht : TraceOk log) {k : Nat} {id id' : Int}
   | nil => cases h1
   | cons e pre ih =>
     obtain ⟨he, hp⟩ := ht
-    rcases List.mem_cons.1 h1 with rfl | h1 <;> rcases List.mem_cons.1 h2 with h2 | h2
-    · injection h2 with _ a b c d; exact ⟨a, b, c, d⟩
-    · exact absurd rfl (he _ h2)
-    · subst h2; exact absurd rfl (he _ h1)
-    · exact ih hp h1 h2
+    rcases List.mem_cons.1 h1 with h1e | h1p <;> rcases List.mem_cons.1 h2 with h2e | h2p
+    · rw [← h1e] at h2e; cases h2e; exact ⟨rfl, rfl, rfl, rfl⟩
+    · subst h1e; exact (he.1 (Ev.bound k id' ev' f' fl') h2p rfl).elim
+    · subst h2e; exact (he.1 (Ev.bound k id ev f fl) h1p rfl).elim
+    · exact ih hp h1p h2p
 
 theorem boundIn_unique {log : List Ev} (ht : TraceOk log) {k : Nat} {fl fl' : BFlags}
     (h1 : boundIn log k fl) (h2 : boundIn log k fl') : fl = fl' := by
@@ -288,5 +290,1261 @@ theorem Inv.init : Inv St.init := by
     by simp [St.init], by simp [St.init], by simp [St.init], ?_, by simp [St.init, TraceOk]⟩
   intro k
   simp [St.init, liveKey, liveAt, boundIn]
+
+
+/-! ### the invariant is kept by every elementary state change of the repaired code -/
+
+theorem evOk_of_key_none {e : Ev} (h : e.key? = none) (pre : List Ev) : EvOk e pre := by
+  cases e <;> simp_all [Ev.key?, EvOk]
+
+theorem affects_none_of_key_none {e : Ev} (h : e.key? = none) : e.affects = none := by
+  cases e <;> simp_all [Ev.key?, Ev.affects]
+
+/-- Recording an event that changes no binding's liveness (handler entry/exit, action and occurrence brackets),
+    together with changes of the iteration flags that keep `tombIter`. -/
+theorem Inv.of_push {st st' : St} (h : Inv st) (hl : st'.list = st.list) (hs : st'.slotIds = st.slotIds)
+    {e : Ev} (hlog : st'.log = e :: st.log) (haff : e.affects = none)
+    (hk : ∀ k, e.key? = some k → k < st.slotIds.length) (hok : EvOk e st.log)
+    (ht : ∀ b ∈ st.list, b.id = TOMBSTONE → st'.isIter = true ∧ st'.needsDelete = true) : Inv st' := by
+  refine ⟨by rw [hl]; exact h.keysNodup, by rw [hl, hs]; exact h.keysLt, by rw [hl]; exact h.idsUnique,
+    by rw [hl]; exact h.idsPos, by rw [hl]; exact h.liveFn, by rw [hl]; exact ht, by rw [hs]; exact h.slotPos, ?_, ?_, ?_, ?_⟩
+  · intro e' he' k hk'
+    rw [hlog] at he'; rw [hs]
+    rcases List.mem_cons.1 he' with rfl | he'
+    · exact hk k hk'
+    · exact h.logKeys e' he' k hk'
+  · intro b hb
+    rw [hl] at hb
+    obtain ⟨id, ev, first, hm, hh⟩ := h.boundInfo b hb
+    exact ⟨id, ev, first, by rw [hlog]; exact List.mem_cons_of_mem _ hm, hh⟩
+  · intro k
+    rw [hl, hlog, liveAt_cons (by rw [haff]; simp)]
+    exact h.liveIff k
+  · rw [hlog]; exact ⟨hok, h.trace⟩
+
+theorem liveKey_modifyKey_ne {l : List Node} {k k' : Nat} {f : Node → Node} (hf : ∀ b, (f b).key = b.key) (hne : k' ≠ k) :
+    liveKey (modifyKey l k f) k' ↔ liveKey l k' := by
+  unfold liveKey
+  constructor
+  · rintro ⟨b, hb, hk, hlive⟩
+    obtain ⟨a, ha, rfl⟩ := mem_modifyKey hb
+    split at hk
+    · rename_i hak; rw [hf] at hk; omega
+    · rename_i hak
+      refine ⟨a, ha, hk, ?_⟩
+      simpa [hak] using hlive
+  · rintro ⟨a, ha, hk, hlive⟩
+    refine ⟨a, ?_, hk, hlive⟩
+    have := mem_modifyKey_of_mem (k := k) (f := f) ha
+    rwa [if_neg (by omega)] at this
+
+theorem not_liveKey_modifyKey_tomb {l : List Node} {k : Nat} {f : Node → Node} (hn : (keys l).Nodup)
+    (hf : ∀ b, (f b).key = b.key ∧ (f b).id = TOMBSTONE) : ¬ liveKey (modifyKey l k f) k := by
+  rintro ⟨b, hb, hk, hlive⟩
+  obtain ⟨a, ha, rfl⟩ := mem_modifyKey hb
+  split at hk
+  · exact hlive (by rename_i hak; simp [hak, (hf a).2])
+  · rename_i hak; exact hak hk
+
+theorem boundIn_mono {log : List Ev} {e : Ev} {k : Nat} {fl : BFlags} (h : boundIn log k fl) : boundIn (e :: log) k fl := by
+  obtain ⟨id, ev, first, hm⟩ := h
+  exact ⟨id, ev, first, List.mem_cons_of_mem _ hm⟩
+
+/-- The flags of a node are the flags it was bound with. -/
+theorem Inv.flags_of_boundIn {st : St} (h : Inv st) {b : Node} (hb : b ∈ st.list) {fl : BFlags}
+    (hbi : boundIn st.log b.key fl) : fl = b.flags := by
+  obtain ⟨id, ev, first, hm, _⟩ := h.boundInfo b hb
+  exact boundIn_unique h.trace hbi ⟨id, ev, first, hm⟩
+
+/-- Tombstoning a live node (`id := TOMBSTONE`, possibly clearing `evindex` and `fn`) together with recording the
+    event `e` that kills it in the trace. -/
+theorem Inv.of_kill {st st' : St} (h : Inv st) {b : Node} (hb : b ∈ st.list) (hlive : b.id ≠ TOMBSTONE)
+    {f : Node → Node} (hf : ∀ a, (f a).key = a.key ∧ (f a).id = TOMBSTONE ∧ (f a).flags = a.flags)
+    (hl : st'.list = modifyKey st.list b.key f) (hs : st'.slotIds = st.slotIds)
+    {e : Ev} (hlog : st'.log = e :: st.log) (hekey : e.key? = some b.key) (haff : e.affects = some b.key)
+    (hdead : ¬ liveAt (e :: st.log) b.key) (hok : EvOk e st.log)
+    (hit : st'.isIter = true) (hnd : st'.needsDelete = true) : Inv st' := by
+  have hfk : ∀ a, (f a).key = a.key := fun a => (hf a).1
+  have hmem : ∀ x ∈ st'.list, ∃ a ∈ st.list, (x = a ∧ a.key ≠ b.key) ∨ (x = f a ∧ a.key = b.key) := by
+    intro x hx
+    rw [hl] at hx
+    obtain ⟨a, ha, rfl⟩ := mem_modifyKey hx
+    by_cases hak : a.key = b.key
+    · exact ⟨a, ha, Or.inr ⟨by simp [hak], hak⟩⟩
+    · exact ⟨a, ha, Or.inl ⟨by simp [hak], hak⟩⟩
+  refine ⟨by rw [hl, keys_modifyKey _ _ _ hfk]; exact h.keysNodup, ?_, ?_, ?_, ?_, ?_, by rw [hs]; exact h.slotPos, ?_, ?_, ?_, ?_⟩
+  · intro x hx
+    obtain ⟨a, ha, (⟨rfl, _⟩ | ⟨rfl, _⟩)⟩ := hmem x hx
+    · rw [hs]; exact h.keysLt _ ha
+    · rw [hs, hfk]; exact h.keysLt _ ha
+  · intro x1 hx1 x2 hx2 hl1 heq
+    obtain ⟨a1, ha1, (⟨rfl, _⟩ | ⟨rfl, _⟩)⟩ := hmem x1 hx1
+    · obtain ⟨a2, ha2, (⟨rfl, _⟩ | ⟨rfl, _⟩)⟩ := hmem x2 hx2
+      · exact h.idsUnique _ ha1 _ ha2 hl1 heq
+      · rw [(hf a2).2.1] at heq; exact absurd heq hl1
+    · exact absurd (hf a1).2.1 hl1
+  · intro x hx hlx
+    obtain ⟨a, ha, (⟨rfl, _⟩ | ⟨rfl, _⟩)⟩ := hmem x hx
+    · exact h.idsPos _ ha hlx
+    · exact absurd (hf a).2.1 hlx
+  · intro x hx hlx
+    obtain ⟨a, ha, (⟨rfl, _⟩ | ⟨rfl, _⟩)⟩ := hmem x hx
+    · exact h.liveFn _ ha hlx
+    · exact absurd (hf a).2.1 hlx
+  · intro x _ _; exact ⟨hit, hnd⟩
+  · intro e' he' k hk'
+    rw [hlog] at he'; rw [hs]
+    rcases List.mem_cons.1 he' with rfl | he'
+    · rw [hekey] at hk'; injection hk' with hk'; subst hk'; exact h.keysLt _ hb
+    · exact h.logKeys e' he' k hk'
+  · intro x hx
+    obtain ⟨a, ha, (⟨rfl, _⟩ | ⟨rfl, _⟩)⟩ := hmem x hx
+    · obtain ⟨id, ev, first, hm, hh⟩ := h.boundInfo _ ha
+      exact ⟨id, ev, first, by rw [hlog]; exact List.mem_cons_of_mem _ hm, hh⟩
+    · obtain ⟨id, ev, first, hm, _⟩ := h.boundInfo _ ha
+      refine ⟨id, ev, first, ?_, fun hx => absurd (hf a).2.1 hx⟩
+      rw [hlog, hfk, (hf a).2.2]; exact List.mem_cons_of_mem _ hm
+  · intro k
+    by_cases hk : k = b.key
+    · subst hk
+      rw [hl, hlog]
+      constructor
+      · intro hlk
+        exact absurd hlk (not_liveKey_modifyKey_tomb h.keysNodup (fun a => ⟨(hf a).1, (hf a).2.1⟩))
+      · intro hla; exact absurd hla hdead
+    · rw [hl, hlog, liveKey_modifyKey_ne hfk hk, liveAt_cons (by rw [haff]; simp; omega)]
+      exact h.liveIff k
+  · rw [hlog]; exact ⟨hok, h.trace⟩
+
+
+theorem boundIn_cons_fire {log : List Ev} {k k' o : Nat} {fl : BFlags} :
+    boundIn (Ev.fire k' o :: log) k fl ↔ boundIn log k fl := by
+  unfold boundIn
+  constructor
+  · rintro ⟨id, ev, first, hm⟩
+    rcases List.mem_cons.1 hm with hm | hm
+    · cases hm
+    · exact ⟨id, ev, first, hm⟩
+  · rintro ⟨id, ev, first, hm⟩
+    exact ⟨id, ev, first, List.mem_cons_of_mem _ hm⟩
+
+theorem not_liveAt_req (log : List Ev) (k : Nat) : ¬ liveAt (Ev.unbindReq k :: log) k := by
+  rintro ⟨fl, _, hr, _⟩
+  exact hr (List.mem_cons_self ..)
+
+theorem not_liveAt_fire_oneshot {log : List Ev} (ht : TraceOk log) {k o : Nat} {fl : BFlags}
+    (hb : boundIn log k fl) (ho : fl.oneshot = true) : ¬ liveAt (Ev.fire k o :: log) k := by
+  rintro ⟨fl', hb', _, hf⟩
+  have : fl' = fl := boundIn_unique ht (boundIn_cons_fire.1 hb') hb
+  subst this
+  exact hf ho ⟨o, List.mem_cons_self ..⟩
+
+/-- Delivering to a binding that is not one-shot: the list is unchanged, the ghost `fire` is recorded. -/
+theorem Inv.of_fire_keep {st st' : St} (h : Inv st) {b : Node} (hb : b ∈ st.list) (hlive : b.id ≠ TOMBSTONE)
+    (hno : b.flags.oneshot = false) (hl : st'.list = st.list) (hs : st'.slotIds = st.slotIds) {occ : Nat}
+    (hlog : st'.log = Ev.fire b.key occ :: st.log)
+    (ht : ∀ b ∈ st.list, b.id = TOMBSTONE → st'.isIter = true ∧ st'.needsDelete = true) : Inv st' := by
+  have hla : liveAt st.log b.key := (h.liveIff b.key).1 ⟨b, hb, rfl, hlive⟩
+  refine ⟨by rw [hl]; exact h.keysNodup, by rw [hl, hs]; exact h.keysLt, by rw [hl]; exact h.idsUnique,
+    by rw [hl]; exact h.idsPos, by rw [hl]; exact h.liveFn, by rw [hl]; exact ht, by rw [hs]; exact h.slotPos, ?_, ?_, ?_, ?_⟩
+  · intro e' he' k hk'
+    rw [hlog] at he'; rw [hs]
+    rcases List.mem_cons.1 he' with rfl | he'
+    · simp only [Ev.key?, Option.some.injEq] at hk'; subst hk'; exact h.keysLt _ hb
+    · exact h.logKeys e' he' k hk'
+  · intro x hx
+    rw [hl] at hx
+    obtain ⟨id, ev, first, hm, hh⟩ := h.boundInfo x hx
+    exact ⟨id, ev, first, by rw [hlog]; exact List.mem_cons_of_mem _ hm, hh⟩
+  · intro k
+    rw [hl, hlog]
+    by_cases hk : k = b.key
+    · subst hk
+      rw [h.liveIff]
+      constructor
+      · rintro ⟨fl, hbi, hr, hf⟩
+        have hfl := h.flags_of_boundIn hb hbi
+        refine ⟨fl, boundIn_mono hbi, ?_, fun ho => by rw [hfl, hno] at ho; cases ho⟩
+        intro hr'; rcases List.mem_cons.1 hr' with hr' | hr'
+        · cases hr'
+        · exact hr hr'
+      · intro _; exact hla
+    · rw [liveAt_cons (by simp [Ev.affects]; omega)]
+      exact h.liveIff k
+  · rw [hlog]; exact ⟨hla, h.trace⟩
+
+theorem liveKey_eraseKey_ne {l : List Node} {k k' : Nat} (hne : k' ≠ k) : liveKey (eraseKey l k) k' ↔ liveKey l k' := by
+  unfold liveKey
+  constructor
+  · rintro ⟨b, hb, hk, hlive⟩
+    exact ⟨b, (mem_eraseKey.1 hb).1, hk, hlive⟩
+  · rintro ⟨b, hb, hk, hlive⟩
+    exact ⟨b, mem_eraseKey.2 ⟨hb, by omega⟩, hk, hlive⟩
+
+/-- Unbinding while no walker runs: the node is unlinked and freed at once. -/
+theorem Inv.of_erase {st st' : St} (h : Inv st) {b : Node} (hb : b ∈ st.list) (hlive : b.id ≠ TOMBSTONE)
+    (hni : st.isIter = false) (hl : st'.list = eraseKey st.list b.key) (hs : st'.slotIds = st.slotIds)
+    (hlog : st'.log = Ev.unbindReq b.key :: st.log) : Inv st' := by
+  have hnt : ∀ x ∈ st.list, x.id ≠ TOMBSTONE := by
+    intro x hx hxt
+    have := (h.tombIter x hx hxt).1
+    rw [hni] at this; cases this
+  have hsub : ∀ x ∈ st'.list, x ∈ st.list := fun x hx => by rw [hl] at hx; exact (mem_eraseKey.1 hx).1
+  refine ⟨by rw [hl]; exact nodup_keys_filter _ h.keysNodup, fun x hx => by rw [hs]; exact h.keysLt x (hsub x hx),
+    fun x1 h1 x2 h2 => h.idsUnique x1 (hsub x1 h1) x2 (hsub x2 h2), fun x hx => h.idsPos x (hsub x hx),
+    fun x hx => h.liveFn x (hsub x hx), fun x hx hxt => absurd hxt (hnt x (hsub x hx)), by rw [hs]; exact h.slotPos, ?_, ?_, ?_, ?_⟩
+  · intro e' he' k hk'
+    rw [hlog] at he'; rw [hs]
+    rcases List.mem_cons.1 he' with rfl | he'
+    · simp only [Ev.key?, Option.some.injEq] at hk'; subst hk'; exact h.keysLt _ hb
+    · exact h.logKeys e' he' k hk'
+  · intro x hx
+    obtain ⟨id, ev, first, hm, hh⟩ := h.boundInfo x (hsub x hx)
+    exact ⟨id, ev, first, by rw [hlog]; exact List.mem_cons_of_mem _ hm, hh⟩
+  · intro k
+    rw [hl, hlog]
+    by_cases hk : k = b.key
+    · subst hk
+      constructor
+      · rintro ⟨x, hx, hxk, _⟩
+        exact absurd hxk (mem_eraseKey.1 hx).2
+      · intro hla; exact absurd hla (not_liveAt_req _ _)
+    · rw [liveKey_eraseKey_ne hk, liveAt_cons (by simp [Ev.affects]; omega)]
+      exact h.liveIff k
+  · rw [hlog]; exact ⟨(h.liveIff b.key).1 ⟨b, hb, rfl, hlive⟩, h.trace⟩
+
+theorem liveKey_sweep {l : List Node} {k : Nat} : liveKey (sweep l) k ↔ liveKey l k := by
+  unfold liveKey
+  constructor
+  · rintro ⟨b, hb, hk, hlive⟩
+    exact ⟨b, (mem_sweep.1 hb).1, hk, hlive⟩
+  · rintro ⟨b, hb, hk, hlive⟩
+    exact ⟨b, mem_sweep.2 ⟨hb, hlive⟩, hk, hlive⟩
+
+/-- `cleanup` at the end of the outermost iteration, with the `occEnd` bracket recorded. -/
+theorem Inv.of_sweep {st st' : St} (h : Inv st) (hl : st'.list = sweep st.list) (hs : st'.slotIds = st.slotIds)
+    {e : Ev} (hlog : st'.log = e :: st.log) (he : e.key? = none) : Inv st' := by
+  have hsub : ∀ x ∈ st'.list, x ∈ st.list ∧ x.id ≠ TOMBSTONE := fun x hx => by rw [hl] at hx; exact mem_sweep.1 hx
+  refine ⟨by rw [hl]; exact nodup_keys_filter _ h.keysNodup, fun x hx => by rw [hs]; exact h.keysLt x (hsub x hx).1,
+    fun x1 h1 x2 h2 => h.idsUnique x1 (hsub x1 h1).1 x2 (hsub x2 h2).1, fun x hx => h.idsPos x (hsub x hx).1,
+    fun x hx => h.liveFn x (hsub x hx).1, fun x hx hxt => absurd hxt (hsub x hx).2, by rw [hs]; exact h.slotPos, ?_, ?_, ?_, ?_⟩
+  · intro e' he' k hk'
+    rw [hlog] at he'; rw [hs]
+    rcases List.mem_cons.1 he' with rfl | he'
+    · rw [he] at hk'; cases hk'
+    · exact h.logKeys e' he' k hk'
+  · intro x hx
+    obtain ⟨id, ev, first, hm, hh⟩ := h.boundInfo x (hsub x hx).1
+    exact ⟨id, ev, first, by rw [hlog]; exact List.mem_cons_of_mem _ hm, hh⟩
+  · intro k
+    rw [hl, hlog, liveKey_sweep, liveAt_cons (by rw [affects_none_of_key_none he]; simp)]
+    exact h.liveIff k
+  · rw [hlog]; exact ⟨evOk_of_key_none he _, h.trace⟩
+
+/-- `tickit_bindings_bind_event`. -/
+theorem Inv.of_bind {st : St} (h : Inv st) (ev : Int) (first : Bool) (flags : BFlags) (hh : Nat) :
+    Inv (bindEvent st ev first flags hh) := by
+  have hmax := maxId_ge st.list
+  have hfresh : ∀ x ∈ st.list, x.key ≠ st.slotIds.length := fun x hx => Nat.ne_of_lt (h.keysLt x hx)
+  have hlogfresh : ∀ e ∈ st.log, e.key? ≠ some st.slotIds.length := by
+    intro e he hk
+    exact Nat.lt_irrefl _ (h.logKeys e he _ hk)
+  let node : Node := ⟨st.slotIds.length, maxId st.list + 1, ev, flags, some hh⟩
+  have hlist : ∀ x, x ∈ (bindEvent st ev first flags hh).list ↔ x = node ∨ x ∈ st.list := by
+    intro x
+    simp only [Tickit.Bindings.bindEvent]
+    split <;> simp [node, or_comm]
+  have hnodeLive : node.id ≠ TOMBSTONE := by simp [node, TOMBSTONE]; omega
+  refine ⟨?_, ?_, ?_, ?_, ?_, ?_, ?_, ?_, ?_, ?_, ?_⟩
+  · simp only [Tickit.Bindings.bindEvent]
+    split
+    · simp only [keys_cons, List.nodup_cons]
+      exact ⟨fun hm => by obtain ⟨x, hx, hk⟩ := mem_keys.1 hm; exact hfresh x hx hk, h.keysNodup⟩
+    · rw [keys_append, List.nodup_append]
+      refine ⟨h.keysNodup, by simp, ?_⟩
+      intro a ha b hb
+      simp at hb; subst hb
+      obtain ⟨x, hx, hk⟩ := mem_keys.1 ha
+      intro e; exact hfresh x hx (by omega)
+  · intro x hx
+    have hlen : (bindEvent st ev first flags hh).slotIds.length = st.slotIds.length + 1 := by
+      simp [Tickit.Bindings.bindEvent]
+    rw [hlen]
+    rcases (hlist x).1 hx with rfl | hx
+    · simp [node]
+    · have := h.keysLt x hx; omega
+  · intro x1 h1 x2 h2 hl1 heq
+    rcases (hlist x1).1 h1 with rfl | h1 <;> rcases (hlist x2).1 h2 with rfl | h2
+    · rfl
+    · have := hmax.2 x2 h2; simp [node] at heq; omega
+    · have := hmax.2 x1 h1; simp [node] at heq; omega
+    · exact h.idsUnique x1 h1 x2 h2 hl1 heq
+  · intro x hx hlx
+    rcases (hlist x).1 hx with rfl | hx
+    · simp [node]; omega
+    · exact h.idsPos x hx hlx
+  · intro x hx hlx
+    rcases (hlist x).1 hx with rfl | hx
+    · simp [node]
+    · exact h.liveFn x hx hlx
+  · intro x hx hxt
+    rcases (hlist x).1 hx with rfl | hx
+    · exact absurd hxt hnodeLive
+    · exact h.tombIter x hx hxt
+  · intro id hid
+    simp only [Tickit.Bindings.bindEvent, List.mem_append, List.mem_singleton] at hid
+    rcases hid with hid | rfl
+    · exact h.slotPos id hid
+    · omega
+  · intro e he k hk
+    simp only [Tickit.Bindings.bindEvent, List.mem_cons, List.length_append, List.length_singleton] at he ⊢
+    rcases he with rfl | he
+    · simp only [Ev.key?, Option.some.injEq] at hk; omega
+    · have := h.logKeys e he k hk; omega
+  · intro x hx
+    rcases (hlist x).1 hx with rfl | hx
+    · exact ⟨maxId st.list + 1, ev, first, by simp [Tickit.Bindings.bindEvent, node], fun _ => ⟨rfl, rfl⟩⟩
+    · obtain ⟨id, ev', first', hm, hh'⟩ := h.boundInfo x hx
+      exact ⟨id, ev', first', by simp only [Tickit.Bindings.bindEvent]; exact List.mem_cons_of_mem _ hm, hh'⟩
+  · intro k
+    have hlog : (bindEvent st ev first flags hh).log = Ev.bound st.slotIds.length (maxId st.list + 1) ev first flags :: st.log := by
+      simp [Tickit.Bindings.bindEvent]
+    rw [hlog]
+    by_cases hk : k = st.slotIds.length
+    · subst hk
+      constructor
+      · intro _
+        refine ⟨flags, ⟨_, _, _, List.mem_cons_self ..⟩, ?_, ?_⟩
+        · intro hr
+          rcases List.mem_cons.1 hr with hr | hr
+          · cases hr
+          · exact hlogfresh _ hr rfl
+        · rintro _ ⟨o, hf⟩
+          rcases List.mem_cons.1 hf with hf | hf
+          · cases hf
+          · exact hlogfresh _ hf rfl
+      · intro _
+        exact ⟨node, (hlist node).2 (Or.inl rfl), rfl, hnodeLive⟩
+    · rw [liveAt_cons (by simp [Ev.affects]; omega), ← h.liveIff k]
+      unfold liveKey
+      constructor
+      · rintro ⟨x, hx, hxk, hxl⟩
+        rcases (hlist x).1 hx with rfl | hx
+        · exact absurd hxk.symm hk
+        · exact ⟨x, hx, hxk, hxl⟩
+      · rintro ⟨x, hx, hxk, hxl⟩
+        exact ⟨x, (hlist x).2 (Or.inr hx), hxk, hxl⟩
+  · have hlog : (bindEvent st ev first flags hh).log = Ev.bound st.slotIds.length (maxId st.list + 1) ev first flags :: st.log := by
+      simp [Tickit.Bindings.bindEvent]
+    rw [hlog]
+    refine ⟨⟨fun e he => hlogfresh e he, by omega, ?_⟩, h.trace⟩
+    intro k' id' ev' f' fl' hm hla
+    obtain ⟨x, hx, hxk, hxl⟩ := (h.liveIff k').2 hla
+    obtain ⟨id'', ev'', f'', hm', hh'⟩ := h.boundInfo x hx
+    rw [hxk] at hm'
+    have := (bound_unique h.trace hm hm').1
+    have hid := (hh' hxl).2
+    have := hmax.2 x hx
+    omega
+
+
+/-! ### what every completed task guarantees (repaired code) -/
+
+@[simp] theorem repaired_skipTomb : Cfg.repaired.skipTomb = true := rfl
+@[simp] theorem repaired_wfOneshot : Cfg.repaired.wfOneshot = true := rfl
+@[simp] theorem repaired_notifyLast : Cfg.repaired.notifyLast = true := rfl
+
+/-- Two-state facts about a completed task. -/
+structure Step (st st' : St) : Prop where
+  /-- the iteration guard is restored -/
+  iter : st'.isIter = st.isIter
+  /-- while a walker runs nothing is unlinked -/
+  keysIter : st.isIter = true → ∀ k ∈ keys st.list, k ∈ keys st'.list
+  /-- the trace only grows -/
+  logExt : ∃ seg, st'.log = seg ++ st.log
+  /-- the harness's slot table only grows -/
+  slotsExt : ∃ ext, st'.slotIds = st.slotIds ++ ext
+
+theorem Step.refl (st : St) : Step st st := ⟨rfl, fun _ _ h => h, ⟨[], rfl⟩, ⟨[], by simp⟩⟩
+
+theorem Step.trans {a b c : St} (h1 : Step a b) (h2 : Step b c) : Step a c := by
+  obtain ⟨s1, hs1⟩ := h1.logExt
+  obtain ⟨s2, hs2⟩ := h2.logExt
+  obtain ⟨e1, he1⟩ := h1.slotsExt
+  obtain ⟨e2, he2⟩ := h2.slotsExt
+  exact ⟨h2.iter.trans h1.iter, fun hi k hk => h2.keysIter (h1.iter.trans hi) k (h1.keysIter hi k hk),
+    ⟨s2 ++ s1, by rw [hs2, hs1, List.append_assoc]⟩, ⟨e1 ++ e2, by rw [he2, he1, List.append_assoc]⟩⟩
+
+/-- a state change that keeps the keys and the slots and records one event -/
+theorem Step.of_keys {st st' : St} (hi : st'.isIter = st.isIter) (hk : keys st'.list = keys st.list)
+    (hlog : ∃ seg, st'.log = seg ++ st.log) (hs : st'.slotIds = st.slotIds) : Step st st' :=
+  ⟨hi, fun _ k h => by rw [hk]; exact h, hlog, ⟨[], by simp [hs]⟩⟩
+
+def NoDestroy (beh : Behaviour) : Prop := ∀ h n, Action.destroy ∉ (beh h n).acts
+
+/-- What a task needs of the state it starts in. -/
+def TaskOk (task : Task) (st : St) : Prop :=
+  match task with
+  | .runEvent _ _ => True
+  | .walk _ _ _ cur => st.isIter = true ∧ ∀ k, cur = some k → k ∈ keys st.list
+  | .unbindId id => id ≠ TOMBSTONE
+  | .unbindLoopOrig _ _ => False
+  | .call key fn fl occ => fn ≠ none ∧ key < st.slotIds.length ∧ ∀ h n, EvOk (Ev.enter key h n fl occ) st.log
+  | .acts _ _ as => ∀ a ∈ as, a ≠ Action.destroy
+  | .destroyLoop _ => False
+
+def Post (st : St) : Res (St × Int) → Prop
+  | .ok (st', _) => Inv st' ∧ Step st st'
+  | .ub _ => False
+  | .outOfFuel => True
+
+section
+variable (own : Owner) (beh : Behaviour)
+
+/-- induction hypothesis of the main theorem, for one amount of fuel -/
+def Good (fuel : Nat) : Prop :=
+  ∀ task st, Inv st → TaskOk task st → Post st (exec Cfg.repaired own beh fuel task st)
+
+theorem good_runEvent {fuel : Nat} (ih : Good own beh fuel) (wf : Bool) (ev : Int) (st : St) (h : Inv st) :
+    Post st (exec Cfg.repaired own beh (fuel + 1) (.runEvent wf ev) st) := by
+  simp only [exec]
+  have h1 : Inv { st with isIter := true, nextOcc := st.nextOcc + 1, log := Ev.occBegin st.nextOcc ev wf :: st.log } :=
+    h.of_push rfl rfl rfl rfl (by simp [Ev.key?]) (by simp [EvOk]) (fun b hb ht => ⟨rfl, (h.tombIter b hb ht).2⟩)
+  have hw := ih (.walk wf ev st.nextOcc (firstOf st.list)) _ h1 ⟨rfl, fun k hk => firstOf_mem hk⟩
+  cases hres : exec Cfg.repaired own beh fuel (.walk wf ev st.nextOcc (firstOf st.list))
+      { st with isIter := true, nextOcc := st.nextOcc + 1, log := Ev.occBegin st.nextOcc ev wf :: st.log } with
+  | outOfFuel => simp [Post]
+  | ub w => rw [hres] at hw; exact hw.elim
+  | ok p =>
+    obtain ⟨st2, r⟩ := p
+    rw [hres] at hw
+    obtain ⟨h2, s2⟩ := hw
+    simp only
+    split
+    · rename_i hc
+      simp only [Bool.and_eq_true, Bool.not_eq_true'] at hc
+      obtain ⟨seg, hseg⟩ := s2.logExt
+      refine ⟨h2.of_sweep rfl rfl rfl rfl, rfl, fun hi => ?_, ⟨Ev.occEnd st.nextOcc :: (seg ++ [Ev.occBegin st.nextOcc ev wf]), by simp [hseg]⟩, s2.slotsExt⟩
+      rw [hc.1] at hi; cases hi
+    · rename_i hc
+      simp only [Bool.and_eq_true, Bool.not_eq_true', not_and, Bool.not_eq_true] at hc
+      obtain ⟨seg, hseg⟩ := s2.logExt
+      refine ⟨h2.of_push rfl rfl rfl rfl (by simp [Ev.key?]) (by simp [EvOk]) ?_, rfl, fun hi k hk => s2.keysIter rfl k hk,
+        ⟨Ev.occEnd st.nextOcc :: (seg ++ [Ev.occBegin st.nextOcc ev wf]), by simp [hseg]⟩, s2.slotsExt⟩
+      intro b hb ht
+      have hnd := (h2.tombIter b hb ht).2
+      refine ⟨?_, hnd⟩
+      cases hi : st.isIter with
+      | true => rfl
+      | false => rw [hc hi] at hnd; cases hnd
+
+
+theorem good_call {fuel : Nat} (hb : NoDestroy beh) (ih : Good own beh fuel) (key : Nat) (fn : Option Nat) (fl occ : Nat) (st : St)
+    (h : Inv st) (hok : TaskOk (.call key fn fl occ) st) :
+    Post st (exec Cfg.repaired own beh (fuel + 1) (.call key fn fl occ) st) := by
+  obtain ⟨hfn, hkey, hev⟩ := hok
+  cases fn with
+  | none => exact absurd rfl hfn
+  | some hh =>
+    simp only [exec]
+    have h1 : Inv { st with inv := fun x => if x = hh then st.inv hh + 1 else st.inv x,
+                            log := Ev.enter key hh (st.inv hh) fl occ :: st.log } :=
+      h.of_push rfl rfl rfl rfl (by intro k hk; simp only [Ev.key?, Option.some.injEq] at hk; omega) (hev _ _)
+        (fun b hb' ht => h.tombIter b hb' ht)
+    have hacts : TaskOk (.acts key 0 (if fl / EV_DESTROY % 2 = 1 then [] else (beh hh (st.inv hh)).acts))
+        { st with inv := fun x => if x = hh then st.inv hh + 1 else st.inv x,
+                  log := Ev.enter key hh (st.inv hh) fl occ :: st.log } := by
+      intro a ha
+      split at ha
+      · cases ha
+      · intro e; subst e; exact hb _ _ ha
+    have hw := ih _ _ h1 hacts
+    cases hres : exec Cfg.repaired own beh fuel (.acts key 0 (if fl / EV_DESTROY % 2 = 1 then [] else (beh hh (st.inv hh)).acts))
+        { st with inv := fun x => if x = hh then st.inv hh + 1 else st.inv x,
+                  log := Ev.enter key hh (st.inv hh) fl occ :: st.log } with
+    | outOfFuel => simp [Post]
+    | ub w => rw [hres] at hw; exact hw.elim
+    | ok p =>
+      obtain ⟨st2, r⟩ := p
+      rw [hres] at hw
+      obtain ⟨h2, s2⟩ := hw
+      refine ⟨h2.of_push rfl rfl rfl rfl (by simp [Ev.key?]) (by simp [EvOk]) (fun b hb' ht => h2.tombIter b hb' ht), ?_⟩
+      obtain ⟨seg, hseg⟩ := s2.logExt
+      exact ⟨s2.iter, fun hi k hk => s2.keysIter hi k hk,
+        ⟨Ev.leave (beh hh (st.inv hh)).ret :: (seg ++ [Ev.enter key hh (st.inv hh) fl occ]), by simp [St.push, hseg]⟩, s2.slotsExt⟩
+
+theorem good_walk {fuel : Nat} (ih : Good own beh fuel) (wf : Bool) (ev : Int) (occ : Nat) (cur : Option Nat) (st : St)
+    (h : Inv st) (hok : TaskOk (.walk wf ev occ cur) st) :
+    Post st (exec Cfg.repaired own beh (fuel + 1) (.walk wf ev occ cur) st) := by
+  obtain ⟨hit, hcur⟩ := hok
+  cases cur with
+  | none => simp only [exec]; exact ⟨h, Step.refl st⟩
+  | some k =>
+    have hk : k ∈ keys st.list := hcur k rfl
+    obtain ⟨b, hfb⟩ := findKey_of_mem hk
+    obtain ⟨hbm, hbk⟩ := findKey_some hfb
+    subst hbk
+    simp only [exec, hfb, repaired_skipTomb, repaired_wfOneshot, Bool.or_true, Bool.and_true, forall_const]
+    split
+    · rename_i hc
+      obtain ⟨_, hlive⟩ := hc
+      -- the state handed to the handler, and the invariant for it
+      have h1 : Inv { st with
+          list := if b.flags.oneshot = true then modifyKey st.list b.key (fun b => { b with id := TOMBSTONE }) else st.list,
+          needsDelete := b.flags.oneshot || st.needsDelete, log := Ev.fire b.key occ :: st.log } := by
+        cases ho : b.flags.oneshot with
+        | true =>
+          obtain ⟨id, ev', first, hm, _⟩ := h.boundInfo b hbm
+          exact h.of_kill hbm hlive (f := fun b => { b with id := TOMBSTONE }) (fun a => ⟨rfl, rfl, rfl⟩) (by simp) rfl rfl rfl rfl
+            (not_liveAt_fire_oneshot h.trace ⟨id, ev', first, hm⟩ ho) ((h.liveIff b.key).1 ⟨b, hbm, rfl, hlive⟩) hit (by simp)
+        | false =>
+          exact h.of_fire_keep hbm hlive ho (by simp) rfl rfl (fun x hx hxt => ⟨hit, by simpa using (h.tombIter x hx hxt).2⟩)
+      have hkeys1 : keys (if b.flags.oneshot = true then modifyKey st.list b.key (fun b => { b with id := TOMBSTONE }) else st.list)
+          = keys st.list := by
+        split
+        · exact keys_modifyKey _ _ _ (fun _ => rfl)
+        · rfl
+      have hcall : TaskOk (.call b.key b.fn (if b.flags.oneshot = true then EV_FIRE + EV_UNBIND else EV_FIRE) occ)
+          { st with
+            list := if b.flags.oneshot = true then modifyKey st.list b.key (fun b => { b with id := TOMBSTONE }) else st.list,
+            needsDelete := b.flags.oneshot || st.needsDelete, log := Ev.fire b.key occ :: st.log } := by
+        refine ⟨h.liveFn b hbm hlive, h.keysLt b hbm, fun hh n => ⟨fun _ => ⟨_, rfl⟩, fun he => ?_⟩⟩
+        split at he <;> simp [EV_FIRE, EV_UNBIND] at he
+      have hw := ih _ _ h1 hcall
+      cases hres : exec Cfg.repaired own beh fuel
+          (.call b.key b.fn (if b.flags.oneshot = true then EV_FIRE + EV_UNBIND else EV_FIRE) occ)
+          { st with
+            list := if b.flags.oneshot = true then modifyKey st.list b.key (fun b => { b with id := TOMBSTONE }) else st.list,
+            needsDelete := b.flags.oneshot || st.needsDelete, log := Ev.fire b.key occ :: st.log } with
+      | outOfFuel => simp [Post]
+      | ub w => rw [hres] at hw; exact hw.elim
+      | ok p =>
+        obtain ⟨st2, r⟩ := p
+        rw [hres] at hw
+        obtain ⟨h2, s2⟩ := hw
+        have s02 : Step st st2 := (Step.of_keys (st := st) (st' := { st with
+            list := if b.flags.oneshot = true then modifyKey st.list b.key (fun b => { b with id := TOMBSTONE }) else st.list,
+            needsDelete := b.flags.oneshot || st.needsDelete, log := Ev.fire b.key occ :: st.log }) rfl hkeys1
+            ⟨[Ev.fire b.key occ], rfl⟩ rfl).trans s2
+        simp only
+        split
+        · exact ⟨h2, s02⟩
+        · have hk2 : b.key ∈ keys st2.list := s02.keysIter hit _ hk
+          cases hn : nextOf st2.list b.key with
+          | none => exact absurd hk2 (nextOf_none hn)
+          | some nx =>
+            simp only
+            have hw2 := ih (.walk wf ev occ nx) st2 h2 ⟨s02.iter.trans hit, fun k' hk' => nextOf_some_mem (hk' ▸ hn)⟩
+            cases hres2 : exec Cfg.repaired own beh fuel (.walk wf ev occ nx) st2 with
+            | outOfFuel => simp [Post]
+            | ub w => rw [hres2] at hw2; exact hw2.elim
+            | ok p2 =>
+              obtain ⟨st3, r3⟩ := p2
+              rw [hres2] at hw2
+              exact ⟨hw2.1, s02.trans hw2.2⟩
+    · cases hn : nextOf st.list b.key with
+      | none => exact absurd hk (nextOf_none hn)
+      | some nx =>
+        simp only
+        exact ih (.walk wf ev occ nx) st h ⟨hit, fun k' hk' => nextOf_some_mem (hk' ▸ hn)⟩
+
+
+theorem good_unbindId {fuel : Nat} (ih : Good own beh fuel) (id : Int) (st : St) (h : Inv st) (hid : id ≠ TOMBSTONE) :
+    Post st (exec Cfg.repaired own beh (fuel + 1) (.unbindId id) st) := by
+  simp only [exec, repaired_notifyLast, if_true]
+  cases hf : findId st.list id with
+  | none => exact ⟨h, Step.refl st⟩
+  | some b =>
+    obtain ⟨hbm, hbid⟩ := findId_some hf
+    have hlive : b.id ≠ TOMBSTONE := by rw [hbid]; exact hid
+    simp only
+    have h1 : Inv { st with
+        list := if (!st.isIter) = true then eraseKey st.list b.key
+                else modifyKey st.list b.key (fun b => { b with id := TOMBSTONE, ev := -1, fn := none }),
+        needsDelete := st.isIter || st.needsDelete, log := Ev.unbindReq b.key :: st.log } := by
+      cases hi : st.isIter with
+      | false => exact h.of_erase hbm hlive hi (by simp) rfl rfl
+      | true =>
+        exact h.of_kill hbm hlive (f := fun b => { b with id := TOMBSTONE, ev := -1, fn := none }) (fun a => ⟨rfl, rfl, rfl⟩)
+          (by simp) rfl rfl rfl rfl (not_liveAt_req _ _) ((h.liveIff b.key).1 ⟨b, hbm, rfl, hlive⟩) rfl (by simp)
+    have s1 : Step st { st with
+        list := if (!st.isIter) = true then eraseKey st.list b.key
+                else modifyKey st.list b.key (fun b => { b with id := TOMBSTONE, ev := -1, fn := none }),
+        needsDelete := st.isIter || st.needsDelete, log := Ev.unbindReq b.key :: st.log } := by
+      refine ⟨rfl, fun hi k hk => ?_, ⟨[Ev.unbindReq b.key], rfl⟩, ⟨[], by simp⟩⟩
+      simp only [hi, Bool.not_true, Bool.false_eq_true, if_false]
+      have hkk := keys_modifyKey st.list b.key (fun b : Node => { b with id := TOMBSTONE, ev := -1, fn := none }) (fun _ => rfl)
+      rw [hkk]; exact hk
+    cases hu : b.flags.unbind with
+    | false => simp only [Bool.false_eq_true, if_false]; exact ⟨h1, s1⟩
+    | true =>
+      simp only [if_true]
+      cases hfn : b.fn with
+      | none => simp only; exact ⟨h1, s1⟩
+      | some hh =>
+        simp only
+        have hcall : TaskOk (.call b.key (some hh) EV_UNBIND 0) { st with
+            list := if (!st.isIter) = true then eraseKey st.list b.key
+                    else modifyKey st.list b.key (fun b => { b with id := TOMBSTONE, ev := -1, fn := none }),
+            needsDelete := st.isIter || st.needsDelete, log := Ev.unbindReq b.key :: st.log } := by
+          refine ⟨by simp, h.keysLt b hbm, fun _ _ => ⟨fun ho => by simp [EV_UNBIND] at ho, fun _ => ?_⟩⟩
+          obtain ⟨id', ev', first, hm, _⟩ := h.boundInfo b hbm
+          exact ⟨_, b.flags, rfl, ⟨id', ev', first, List.mem_cons_of_mem _ hm⟩, hu⟩
+        have hw := ih _ _ h1 hcall
+        cases hres : exec Cfg.repaired own beh fuel (.call b.key (some hh) EV_UNBIND 0) { st with
+            list := if (!st.isIter) = true then eraseKey st.list b.key
+                    else modifyKey st.list b.key (fun b => { b with id := TOMBSTONE, ev := -1, fn := none }),
+            needsDelete := st.isIter || st.needsDelete, log := Ev.unbindReq b.key :: st.log } with
+        | outOfFuel => simp [Post]
+        | ub w => rw [hres] at hw; exact hw.elim
+        | ok p =>
+          obtain ⟨st2, r⟩ := p
+          rw [hres] at hw
+          exact ⟨hw.1, s1.trans hw.2⟩
+
+theorem slotIds_ne_tomb {st : St} (h : Inv st) {slot : Nat} {id : Int} (hs : st.slotIds[slot]? = some id) : id ≠ TOMBSTONE := by
+  have := h.slotPos id (List.mem_of_getElem? hs)
+  simp [TOMBSTONE]; omega
+
+theorem good_acts {fuel : Nat} (ih : Good own beh fuel) (self i : Nat) (as : List Action) (st : St)
+    (h : Inv st) (hok : TaskOk (.acts self i as) st) :
+    Post st (exec Cfg.repaired own beh (fuel + 1) (.acts self i as) st) := by
+  cases as with
+  | nil => simp only [exec]; exact ⟨h, Step.refl st⟩
+  | cons a rest =>
+    have hrest : ∀ x ∈ rest, x ≠ Action.destroy := fun x hx => hok x (List.mem_cons_of_mem _ hx)
+    have ha : a ≠ Action.destroy := hok a (List.mem_cons_self ..)
+    have h1 : Inv (st.push (Ev.actBegin i)) :=
+      h.of_push rfl rfl rfl rfl (by simp [Ev.key?]) (by simp [EvOk]) (fun b hb ht => h.tombIter b hb ht)
+    have s1 : Step st (st.push (Ev.actBegin i)) := Step.of_keys rfl rfl ⟨[Ev.actBegin i], rfl⟩ rfl
+    -- whatever the action does, it ends in a good state; then the rest of the list runs
+    have hcont : ∀ st2, Inv st2 → Step st st2 →
+        Post st (exec Cfg.repaired own beh fuel (.acts self (i + 1) rest) (st2.push Ev.actEnd)) := by
+      intro st2 h2 s2
+      have h3 : Inv (st2.push Ev.actEnd) :=
+        h2.of_push rfl rfl rfl rfl (by simp [Ev.key?]) (by simp [EvOk]) (fun b hb ht => h2.tombIter b hb ht)
+      have s3 : Step st (st2.push Ev.actEnd) := s2.trans (Step.of_keys rfl rfl ⟨[Ev.actEnd], rfl⟩ rfl)
+      have hw := ih (.acts self (i + 1) rest) _ h3 hrest
+      cases hres : exec Cfg.repaired own beh fuel (.acts self (i + 1) rest) (st2.push Ev.actEnd) with
+      | outOfFuel => simp [Post]
+      | ub w => rw [hres] at hw; exact hw.elim
+      | ok p =>
+        obtain ⟨st4, r⟩ := p
+        rw [hres] at hw
+        exact ⟨hw.1, s3.trans hw.2⟩
+    -- an action that is a task
+    have htask : ∀ task, TaskOk task (st.push (Ev.actBegin i)) →
+        Post st (match exec Cfg.repaired own beh fuel task (st.push (Ev.actBegin i)) with
+          | .ok (st2, _) => exec Cfg.repaired own beh fuel (.acts self (i + 1) rest) (st2.push Ev.actEnd)
+          | e => e) := by
+      intro task htok
+      have hw := ih task _ h1 htok
+      cases hres : exec Cfg.repaired own beh fuel task (st.push (Ev.actBegin i)) with
+      | outOfFuel => simp [Post]
+      | ub w => rw [hres] at hw; exact hw.elim
+      | ok p =>
+        obtain ⟨st2, r⟩ := p
+        rw [hres] at hw
+        exact hcont st2 hw.1 (s1.trans hw.2)
+    cases a with
+    | bind ev first flags hh =>
+      simp only [exec]
+      refine hcont _ (h1.of_bind ev first flags hh) (s1.trans ⟨rfl, fun _ k hk => ?_, ⟨[_], rfl⟩, ⟨[_], rfl⟩⟩)
+      simp only [bindEvent]
+      split
+      · simp [hk]
+      · simp [hk]
+    | unbind slot =>
+      simp only [exec]
+      cases hs : (st.push (Ev.actBegin i)).slotIds[slot]? with
+      | none => simp only; exact hcont _ h1 s1
+      | some id => simp only; exact htask (.unbindId id) (slotIds_ne_tomb h1 hs)
+    | unbindSelf =>
+      simp only [exec]
+      cases hs : (st.push (Ev.actBegin i)).slotIds[self]? with
+      | none => simp only; exact hcont _ h1 s1
+      | some id => simp only; exact htask (.unbindId id) (slotIds_ne_tomb h1 hs)
+    | emit ev =>
+      simp only [exec]
+      by_cases hc : own.canEmit ev = true
+      · simp only [hc, if_true]; exact htask (.runEvent (own.wf ev) ev) trivial
+      · simp only [hc, if_false]; exact hcont _ h1 s1
+    | destroy => exact absurd rfl ha
+
+/-- **Main lemma.**  For every behaviour that never destroys the owner from inside a handler, every task, every
+    fuel: the repaired code never dereferences freed memory or a NULL function, and it keeps the invariant. -/
+theorem exec_good (hb : NoDestroy beh) : ∀ fuel, Good own beh fuel := by
+  intro fuel
+  induction fuel with
+  | zero => intro task st _ _; simp [exec, Post]
+  | succ fuel ih =>
+    intro task st h hok
+    cases task with
+    | runEvent wf ev => exact good_runEvent own beh ih wf ev st h
+    | walk wf ev occ cur => exact good_walk own beh ih wf ev occ cur st h hok
+    | unbindId id => exact good_unbindId own beh ih id st h hok
+    | unbindLoopOrig id loc => exact hok.elim
+    | call key fn fl occ => exact good_call own beh hb ih key fn fl occ st h hok
+    | acts self i as => exact good_acts own beh ih self i as st h hok
+    | destroyLoop rev => exact hok.elim
+
+end
+
+
+/-! ### pure trace reasoning: the clauses of the property follow from `TraceOk` -/
+
+theorem TraceOk.suffix {a b : List Ev} (h : TraceOk (a ++ b)) : TraceOk b := by
+  induction a with
+  | nil => exact h
+  | cons e a ih => exact ih h.2
+
+theorem TraceOk.at {post pre : List Ev} {e : Ev} (h : TraceOk (post ++ e :: pre)) : EvOk e pre :=
+  (TraceOk.suffix h).1
+
+/-- ghost delivery to binding `k` -/
+def isFire (k : Nat) : Ev → Bool
+  | .fire k' _ => k' == k
+  | _ => false
+
+/-- the handler of binding `k` is entered with `TICKIT_EV_FIRE` -/
+def isEnterFire (k : Nat) : Ev → Bool
+  | .enter k' _ _ fl _ => k' == k && fl % 2 == 1
+  | _ => false
+
+/-- the handler of binding `k` is entered with exactly `TICKIT_EV_UNBIND` -/
+def isNotif (k : Nat) : Ev → Bool
+  | .enter k' _ _ fl _ => k' == k && fl == EV_UNBIND
+  | _ => false
+
+def isReq (k : Nat) : Ev → Bool
+  | .unbindReq k' => k' == k
+  | _ => false
+
+theorem countP_isFire_zero {log : List Ev} {k : Nat} (h : ¬ firedIn log k) : log.countP (isFire k) = 0 := by
+  rw [List.countP_eq_zero]
+  intro e he hf
+  cases e <;> simp [isFire] at hf
+  subst hf
+  exact h ⟨_, he⟩
+
+theorem countP_isReq_zero {log : List Ev} {k : Nat} (h : ¬ reqIn log k) : log.countP (isReq k) = 0 := by
+  rw [List.countP_eq_zero]
+  intro e he hf
+  cases e <;> simp [isReq] at hf
+  subst hf
+  exact h he
+
+theorem countP_zero_of_fresh {log : List Ev} {k : Nat} (p : Ev → Bool) (hp : ∀ e, p e = true → e.key? = some k)
+    (h : ∀ e ∈ log, e.key? ≠ some k) : log.countP p = 0 := by
+  rw [List.countP_eq_zero]
+  intro e he hf
+  exact h e he (hp e hf)
+
+theorem isFire_key {k : Nat} (e : Ev) (h : isFire k e = true) : e.key? = some k := by
+  cases e <;> simp_all [isFire, Ev.key?]
+
+theorem isReq_key {k : Nat} (e : Ev) (h : isReq k e = true) : e.key? = some k := by
+  cases e <;> simp_all [isReq, Ev.key?]
+
+/-- **one-shot**: the walkers decide at most once to deliver to a one-shot binding. -/
+theorem fire_le_one {log : List Ev} (ht : TraceOk log) {k : Nat} {fl : BFlags} (hb : boundIn log k fl)
+    (ho : fl.oneshot = true) : log.countP (isFire k) ≤ 1 := by
+  induction log with
+  | nil => simp
+  | cons e pre ih =>
+    obtain ⟨he, hp⟩ := ht
+    by_cases hf : isFire k e = true
+    · -- the newest event is a delivery: the binding was live before it, hence not delivered before
+      rw [List.countP_cons_of_pos hf]
+      cases e <;> simp [isFire] at hf
+      subst hf
+      obtain ⟨fl', hb', _, hnf⟩ := he
+      have hfl : fl' = fl := boundIn_unique hp hb' (boundIn_cons_fire.1 hb)
+      subst hfl
+      rw [countP_isFire_zero (hnf ho)]; omega
+    · rw [List.countP_cons_of_neg hf]
+      by_cases hbp : boundIn pre k fl
+      · exact ih hp hbp
+      · -- the newest event is the bind itself: nothing earlier mentions the binding
+        obtain ⟨id, ev, first, hm⟩ := hb
+        rcases List.mem_cons.1 hm with rfl | hm
+        · rw [countP_zero_of_fresh (isFire k) isFire_key he.1]; omega
+        · exact absurd ⟨id, ev, first, hm⟩ hbp
+
+theorem isEnterFire_cons_fire {k k' o : Nat} : isEnterFire k (Ev.fire k' o) = false := rfl
+
+/-- Every entry with `TICKIT_EV_FIRE` is the immediate consequence of a walker's decision. -/
+theorem enterFire_le_fire_aux {log : List Ev} (ht : TraceOk log) (k : Nat) :
+    log.countP (isEnterFire k) + (match log with | e :: _ => if isFire k e then 1 else 0 | [] => 0) ≤ log.countP (isFire k) := by
+  induction log with
+  | nil => simp
+  | cons e pre ih =>
+    obtain ⟨he, hp⟩ := ht
+    have ih := ih hp
+    by_cases hf : isFire k e = true
+    · have hne : isEnterFire k e = false := by cases e <;> simp_all [isFire, isEnterFire]
+      rw [List.countP_cons_of_pos hf, List.countP_cons_of_neg (by simp [hne])]
+      simp only [hf, if_true]
+      have : pre.countP (isEnterFire k) ≤ pre.countP (isFire k) := by
+        cases pre with
+        | nil => simp
+        | cons x xs => simp only at ih; omega
+      omega
+    · rw [List.countP_cons_of_neg hf]
+      simp only [hf, Bool.false_eq_true, if_false, Nat.add_zero]
+      by_cases hef : isEnterFire k e = true
+      · rw [List.countP_cons_of_pos hef]
+        cases e <;> simp [isEnterFire] at hef
+        obtain ⟨hk, hodd⟩ := hef
+        subst hk
+        obtain ⟨pre', hpre'⟩ := he.1 hodd
+        subst hpre'
+        simp only [isFire, beq_self_eq_true, if_true] at ih
+        exact ih
+      · rw [List.countP_cons_of_neg hef]
+        cases pre with
+        | nil => simp
+        | cons x xs => simp only at ih; omega
+
+theorem enterFire_le_fire {log : List Ev} (ht : TraceOk log) (k : Nat) :
+    log.countP (isEnterFire k) ≤ log.countP (isFire k) := by
+  have := enterFire_le_fire_aux ht k
+  omega
+
+/-- A request to unbind hits a live binding, so a binding is requested at most once. -/
+theorem req_le_one {log : List Ev} (ht : TraceOk log) (k : Nat) : log.countP (isReq k) ≤ 1 := by
+  induction log with
+  | nil => simp
+  | cons e pre ih =>
+    obtain ⟨he, hp⟩ := ht
+    by_cases hf : isReq k e = true
+    · rw [List.countP_cons_of_pos hf]
+      cases e <;> simp [isReq] at hf
+      subst hf
+      obtain ⟨_, _, hnr, _⟩ := he
+      rw [countP_isReq_zero hnr]; omega
+    · rw [List.countP_cons_of_neg hf]; exact ih hp
+
+theorem notif_le_req_aux {log : List Ev} (ht : TraceOk log) (k : Nat) :
+    log.countP (isNotif k) + (match log with | e :: _ => if isReq k e then 1 else 0 | [] => 0) ≤ log.countP (isReq k) := by
+  induction log with
+  | nil => simp
+  | cons e pre ih =>
+    obtain ⟨he, hp⟩ := ht
+    have ih := ih hp
+    by_cases hf : isReq k e = true
+    · have hne : isNotif k e = false := by cases e <;> simp_all [isReq, isNotif]
+      rw [List.countP_cons_of_pos hf, List.countP_cons_of_neg (by simp [hne])]
+      simp only [hf, if_true]
+      have : pre.countP (isNotif k) ≤ pre.countP (isReq k) := by
+        cases pre with
+        | nil => simp
+        | cons x xs => simp only at ih; omega
+      omega
+    · rw [List.countP_cons_of_neg hf]
+      simp only [hf, Bool.false_eq_true, if_false, Nat.add_zero]
+      by_cases hef : isNotif k e = true
+      · rw [List.countP_cons_of_pos hef]
+        cases e <;> simp [isNotif] at hef
+        obtain ⟨hk, hfl⟩ := hef
+        subst hk
+        obtain ⟨pre', _, hpre', _⟩ := he.2 hfl
+        subst hpre'
+        simp only [isReq, beq_self_eq_true, if_true] at ih
+        exact ih
+      · rw [List.countP_cons_of_neg hef]
+        cases pre with
+        | nil => simp
+        | cons x xs => simp only at ih; omega
+
+/-- Unbind notifications (`TICKIT_EV_UNBIND` alone) are never more than the unbind requests: at most one. -/
+theorem notif_le_req {log : List Ev} (ht : TraceOk log) (k : Nat) : log.countP (isNotif k) ≤ log.countP (isReq k) := by
+  have := notif_le_req_aux ht k
+  omega
+
+/-- … and only a binding that asked for it (`TICKIT_BIND_UNBIND`) gets one. -/
+theorem notif_asked {log : List Ev} (ht : TraceOk log) {k h n occ : Nat} (hm : Ev.enter k h n EV_UNBIND occ ∈ log) :
+    ∃ fl, boundIn log k fl ∧ fl.unbind = true := by
+  induction log with
+  | nil => cases hm
+  | cons e pre ih =>
+    obtain ⟨he, hp⟩ := ht
+    rcases List.mem_cons.1 hm with rfl | hm
+    · obtain ⟨_, fl, _, hb, hu⟩ := he.2 rfl
+      exact ⟨fl, boundIn_mono hb, hu⟩
+    · obtain ⟨fl, hb, hu⟩ := ih hp hm
+      exact ⟨fl, boundIn_mono hb, hu⟩
+
+/-- **never after unbind**: once binding `k` has been requested unbound, no walker delivers to it and its handler
+    is never entered with `TICKIT_EV_FIRE` again. -/
+theorem no_fire_after_req {post pre : List Ev} {k : Nat} (ht : TraceOk (post ++ Ev.unbindReq k :: pre)) :
+    post.countP (isFire k) = 0 ∧ post.countP (isEnterFire k) = 0 := by
+  have hfire : ∀ p1 p2 o, post = p1 ++ Ev.fire k o :: p2 → False := by
+    intro p1 p2 o hsplit
+    rw [hsplit, List.append_assoc] at ht
+    have := TraceOk.at (post := p1) ht
+    obtain ⟨_, _, hnr, _⟩ := this
+    exact hnr (by simp [reqIn])
+  have h1 : post.countP (isFire k) = 0 := by
+    rw [List.countP_eq_zero]
+    intro e he hf
+    cases e <;> simp [isFire] at hf
+    subst hf
+    obtain ⟨p1, p2, hsplit⟩ := List.append_of_mem he
+    exact hfire p1 p2 _ hsplit
+  refine ⟨h1, ?_⟩
+  rw [List.countP_eq_zero]
+  intro e he hf
+  cases e <;> simp [isEnterFire] at hf
+  rename_i k' hh n fl occ
+  obtain ⟨hk, hodd⟩ := hf
+  subst hk
+  obtain ⟨p1, p2, hsplit⟩ := List.append_of_mem he
+  rw [hsplit, List.append_assoc] at ht
+  obtain ⟨pre', hpre'⟩ := (TraceOk.at (post := p1) ht).1 hodd
+  cases p2 with
+  | nil =>
+    change Ev.unbindReq k' :: pre = Ev.fire k' occ :: pre' at hpre'
+    injection hpre' with h _; cases h
+  | cons x xs =>
+    have hx : x = Ev.fire k' occ := by
+      change x :: (xs ++ Ev.unbindReq k' :: pre) = Ev.fire k' occ :: pre' at hpre'
+      injection hpre'
+    exact hfire (p1 ++ [Ev.enter k' hh n fl occ]) xs occ (by rw [hsplit, hx]; simp)
+
+
+/-! ### the trace of a call and of an unbind -/
+
+section
+variable (own : Owner) (beh : Behaviour)
+
+/-- The state `unbind_event_id` hands to the notification: unlinked (or tombstoned) and recorded. -/
+theorem Inv.of_unbind {st : St} (h : Inv st) {b : Node} (hbm : b ∈ st.list) (hlive : b.id ≠ TOMBSTONE) :
+    Inv { st with
+      list := if (!st.isIter) = true then eraseKey st.list b.key
+              else modifyKey st.list b.key (fun b => { b with id := TOMBSTONE, ev := -1, fn := none }),
+      needsDelete := st.isIter || st.needsDelete, log := Ev.unbindReq b.key :: st.log } := by
+  cases hi : st.isIter with
+  | false => exact h.of_erase hbm hlive hi (by simp) rfl rfl
+  | true =>
+    exact h.of_kill hbm hlive (f := fun b => { b with id := TOMBSTONE, ev := -1, fn := none }) (fun a => ⟨rfl, rfl, rfl⟩)
+      (by simp) rfl rfl rfl rfl (not_liveAt_req _ _) ((h.liveIff b.key).1 ⟨b, hbm, rfl, hlive⟩) rfl (by simp)
+
+/-- A completed call has recorded the entry first. -/
+theorem exec_call_log (hb : NoDestroy beh) {fuel key hh fl occ : Nat} {st st' : St} {r : Int} (h : Inv st)
+    (hok : TaskOk (.call key (some hh) fl occ) st)
+    (hex : exec Cfg.repaired own beh fuel (.call key (some hh) fl occ) st = .ok (st', r)) :
+    ∃ seg, st'.log = seg ++ Ev.enter key hh (st.inv hh) fl occ :: st.log := by
+  have hpost := exec_good own beh hb fuel _ _ h hok
+  rw [hex] at hpost
+  cases fuel with
+  | zero => simp [exec] at hex
+  | succ fuel =>
+    obtain ⟨_, hkey, hev⟩ := hok
+    simp only [exec] at hex
+    have h1 : Inv { st with inv := fun x => if x = hh then st.inv hh + 1 else st.inv x,
+                            log := Ev.enter key hh (st.inv hh) fl occ :: st.log } :=
+      h.of_push rfl rfl rfl rfl (by intro k hk; simp only [Ev.key?, Option.some.injEq] at hk; omega) (hev _ _)
+        (fun b hb' ht => h.tombIter b hb' ht)
+    have hacts : TaskOk (.acts key 0 (if fl / EV_DESTROY % 2 = 1 then [] else (beh hh (st.inv hh)).acts))
+        { st with inv := fun x => if x = hh then st.inv hh + 1 else st.inv x,
+                  log := Ev.enter key hh (st.inv hh) fl occ :: st.log } := by
+      intro a ha
+      split at ha
+      · cases ha
+      · intro e; subst e; exact hb _ _ ha
+    have hw := exec_good own beh hb fuel _ _ h1 hacts
+    cases hres : exec Cfg.repaired own beh fuel (.acts key 0 (if fl / EV_DESTROY % 2 = 1 then [] else (beh hh (st.inv hh)).acts))
+        { st with inv := fun x => if x = hh then st.inv hh + 1 else st.inv x,
+                  log := Ev.enter key hh (st.inv hh) fl occ :: st.log } with
+    | outOfFuel => rw [hres] at hex; simp at hex
+    | ub w => rw [hres] at hex; simp at hex
+    | ok p =>
+      obtain ⟨st2, r2⟩ := p
+      rw [hres] at hex hw
+      simp only at hex
+      injection hex with hex; injection hex with hex _
+      obtain ⟨seg, hseg⟩ := hw.2.logExt
+      exact ⟨Ev.leave (beh hh (st.inv hh)).ret :: seg, by rw [← hex]; simp [St.push, hseg]⟩
+
+/-- A completed `unbind_event_id` that found the live binding `b`: the request is recorded; if `b` asked
+    (`TICKIT_BIND_UNBIND`) its handler was entered with `TICKIT_EV_UNBIND` right after; otherwise nothing else happened. -/
+theorem exec_unbindId_log (hb : NoDestroy beh) {fuel : Nat} {id : Int} {st st' : St} {r : Int} {b : Node} (h : Inv st)
+    (hid : id ≠ TOMBSTONE) (hf : findId st.list id = some b)
+    (hex : exec Cfg.repaired own beh fuel (.unbindId id) st = .ok (st', r)) :
+    (b.flags.unbind = true → ∃ hh n seg, st'.log = seg ++ Ev.enter b.key hh n EV_UNBIND 0 :: Ev.unbindReq b.key :: st.log) ∧
+    (b.flags.unbind = false → st'.log = Ev.unbindReq b.key :: st.log) := by
+  obtain ⟨hbm, hbid⟩ := findId_some hf
+  have hlive : b.id ≠ TOMBSTONE := by rw [hbid]; exact hid
+  cases fuel with
+  | zero => simp [exec] at hex
+  | succ fuel =>
+    simp only [exec, repaired_notifyLast, if_true, hf] at hex
+    constructor
+    · intro hu
+      simp only [hu, if_true] at hex
+      cases hfn : b.fn with
+      | none => exact absurd hfn (h.liveFn b hbm hlive)
+      | some hh =>
+        simp only [hfn] at hex
+        have h1 := h.of_unbind hbm hlive
+        have hcall : TaskOk (.call b.key (some hh) EV_UNBIND 0) { st with
+            list := if (!st.isIter) = true then eraseKey st.list b.key
+                    else modifyKey st.list b.key (fun b => { b with id := TOMBSTONE, ev := -1, fn := none }),
+            needsDelete := st.isIter || st.needsDelete, log := Ev.unbindReq b.key :: st.log } := by
+          refine ⟨by simp, h.keysLt b hbm, fun _ _ => ⟨fun ho => by simp [EV_UNBIND] at ho, fun _ => ?_⟩⟩
+          obtain ⟨id', ev', first, hm, _⟩ := h.boundInfo b hbm
+          exact ⟨_, b.flags, rfl, ⟨id', ev', first, List.mem_cons_of_mem _ hm⟩, hu⟩
+        cases hc : exec Cfg.repaired own beh fuel (.call b.key (some hh) EV_UNBIND 0) { st with
+            list := if (!st.isIter) = true then eraseKey st.list b.key
+                    else modifyKey st.list b.key (fun b => { b with id := TOMBSTONE, ev := -1, fn := none }),
+            needsDelete := st.isIter || st.needsDelete, log := Ev.unbindReq b.key :: st.log } with
+        | outOfFuel => rw [hc] at hex; simp at hex
+        | ub w => rw [hc] at hex; simp at hex
+        | ok p =>
+          obtain ⟨st2, r2⟩ := p
+          rw [hc] at hex
+          simp only at hex
+          injection hex with hex; injection hex with hex _
+          obtain ⟨seg, hseg⟩ := exec_call_log own beh hb h1 hcall hc
+          exact ⟨hh, st.inv hh, seg, by rw [← hex]; exact hseg⟩
+    · intro hu
+      simp only [hu, Bool.false_eq_true, if_false] at hex
+      injection hex with hex; injection hex with hex _
+      rw [← hex]
+
+end
+
+/-! ### top level: operations and histories -/
+
+/-- Between operations no walker runs (hence there are no tombstones: `Inv.tombIter`). -/
+def Top (st : St) : Prop := Inv st ∧ st.isIter = false
+
+theorem Top.init : Top St.init := ⟨Inv.init, rfl⟩
+
+theorem Top.no_tombstones {st : St} (h : Top st) : ∀ b ∈ st.list, b.id ≠ TOMBSTONE := by
+  intro b hb ht
+  have := (h.1.tombIter b hb ht).1
+  rw [h.2] at this; cases this
+
+/-- identifiers handed to `unbind` are identifiers, not the tombstone mark -/
+def OpOk : Op → Prop
+  | .unbindId id => id ≠ TOMBSTONE
+  | _ => True
+
+def PostOp (st : St) : Res St → Prop
+  | .ok st' => Top st' ∧ Step st st'
+  | .ub _ => False
+  | .outOfFuel => True
+
+section
+variable (own : Owner) (beh : Behaviour)
+
+theorem postOp_of_post {st : St} (hi : st.isIter = false) {r : Res (St × Int)} (h : Post st r) :
+    PostOp st r.dropRet := by
+  cases r with
+  | ok p => obtain ⟨st', x⟩ := p; exact ⟨⟨h.1, h.2.iter.trans hi⟩, h.2⟩
+  | ub w => exact h
+  | outOfFuel => trivial
+
+theorem execOp_good (hb : NoDestroy beh) (fuel : Nat) (op : Op) (hop : OpOk op) (hne : op ≠ .destroy) (st : St) (h : Top st) :
+    PostOp st (execOp Cfg.repaired own beh fuel op st) := by
+  have good := exec_good own beh hb fuel
+  cases op with
+  | bind ev first flags hh =>
+    simp only [execOp, PostOp]
+    exact ⟨⟨h.1.of_bind ev first flags hh, h.2⟩, ⟨rfl, fun hi => (by rw [h.2] at hi; cases hi), ⟨[_], rfl⟩, ⟨[_], rfl⟩⟩⟩
+  | unbind slot =>
+    simp only [execOp]
+    cases hs : st.slotIds[slot]? with
+    | none => exact ⟨h, Step.refl st⟩
+    | some id => exact postOp_of_post h.2 (good (.unbindId id) st h.1 (slotIds_ne_tomb h.1 hs))
+  | unbindId id => exact postOp_of_post h.2 (good (.unbindId id) st h.1 hop)
+  | emit ev =>
+    simp only [execOp]
+    by_cases hc : own.canEmit ev = true
+    · simp only [hc, if_true]; exact postOp_of_post h.2 (good (.runEvent (own.wf ev) ev) st h.1 trivial)
+    · simp only [hc]; exact ⟨h, Step.refl st⟩
+  | destroy => exact absurd rfl hne
+
+/-- A handler called with `TICKIT_EV_DESTROY` does nothing: the call records entry and exit only. -/
+theorem exec_call_destroy {cfg : Cfg} {fuel : Nat} {key hh : Nat} {st st' : St} {r : Int}
+    (h : exec cfg own beh fuel (.call key (some hh) (EV_UNBIND + EV_DESTROY) 0) st = .ok (st', r)) :
+    st' = { st with inv := fun x => if x = hh then st.inv hh + 1 else st.inv x,
+                    log := Ev.leave (beh hh (st.inv hh)).ret :: Ev.enter key hh (st.inv hh) (EV_UNBIND + EV_DESTROY) 0 :: st.log } := by
+  cases fuel with
+  | zero => simp [exec] at h
+  | succ fuel =>
+    cases fuel with
+    | zero => simp [exec] at h
+    | succ fuel =>
+      simp only [exec, EV_UNBIND, EV_DESTROY] at h
+      simp only [Nat.reduceAdd, if_true] at h
+      injection h with h
+      injection h with h _
+      rw [← h]; rfl
+
+theorem exec_call_destroy_noub {cfg : Cfg} {fuel : Nat} {key hh : Nat} {st : St} {w : String} :
+    exec cfg own beh fuel (.call key (some hh) (EV_UNBIND + EV_DESTROY) 0) st ≠ .ub w := by
+  cases fuel with
+  | zero => simp [exec]
+  | succ fuel =>
+    cases fuel with
+    | zero => simp [exec]
+    | succ fuel =>
+      simp only [exec, EV_UNBIND, EV_DESTROY]
+      simp
+
+/-- does the destroy loop call this node? (`evindex == 0 || flags & (UNBIND|DESTROY)`) -/
+def asked (b : Node) : Bool := b.ev == 0 || b.flags.unbind || b.flags.destroy
+
+/-- the handler entries of a trace segment, oldest first, as (binding, event flags) -/
+def enters (seg : List Ev) : List (Nat × Nat) :=
+  seg.reverse.filterMap fun e => match e with
+    | .enter k _ _ fl _ => some (k, fl)
+    | _ => none
+
+theorem enters_cons_append (a b : List Ev) : enters (a ++ b) = enters b ++ enters a := by
+  simp [enters, List.filterMap_append]
+
+theorem destroyLoop_spec {cfg : Cfg} : ∀ (rev : List Node) (fuel : Nat) (st st' : St) (r : Int),
+    (∀ b ∈ rev, b.fn ≠ none) →
+    exec cfg own beh fuel (.destroyLoop rev) st = .ok (st', r) →
+    st'.list = [] ∧ ∃ seg, st'.log = seg ++ st.log ∧
+      enters seg = (rev.filter asked).map (fun b => (b.key, EV_UNBIND + EV_DESTROY)) ∧
+      (∀ e ∈ seg, (∃ k hh n, e = Ev.enter k hh n (EV_UNBIND + EV_DESTROY) 0) ∨ ∃ x, e = Ev.leave x) := by
+  intro rev
+  induction rev with
+  | nil =>
+    intro fuel st st' r _ h
+    cases fuel with
+    | zero => simp [exec] at h
+    | succ fuel =>
+      simp only [exec] at h
+      injection h with h; injection h with h _
+      subst h
+      exact ⟨rfl, [], rfl, rfl, by simp⟩
+  | cons b rest ih =>
+    intro fuel st st' r hfn h
+    cases fuel with
+    | zero => simp [exec] at h
+    | succ fuel =>
+      simp only [exec] at h
+      have hrest : ∀ x ∈ rest, x.fn ≠ none := fun x hx => hfn x (List.mem_cons_of_mem _ hx)
+      by_cases hask : b.ev = 0 ∨ b.flags.unbind = true ∨ b.flags.destroy = true
+      · have haskb : asked b = true := by simp only [asked, Bool.or_eq_true, beq_iff_eq]; rcases hask with h | h | h <;> simp [h]
+        rw [if_pos hask] at h
+        cases hfb : b.fn with
+        | none => exact absurd hfb (hfn b (List.mem_cons_self ..))
+        | some hh =>
+          rw [hfb] at h
+          cases hc : exec cfg own beh fuel (.call b.key (some hh) (EV_UNBIND + EV_DESTROY) 0) st with
+          | outOfFuel => rw [hc] at h; simp at h
+          | ub w => rw [hc] at h; simp at h
+          | ok p =>
+            obtain ⟨st1, r1⟩ := p
+            rw [hc] at h
+            simp only at h
+            have hst1 := exec_call_destroy own beh hc
+            obtain ⟨hl, seg, hseg, hent, hshape⟩ := ih fuel st1 st' r hrest h
+            refine ⟨hl, seg ++ [Ev.leave (beh hh (st.inv hh)).ret, Ev.enter b.key hh (st.inv hh) (EV_UNBIND + EV_DESTROY) 0], ?_, ?_, ?_⟩
+            · rw [hseg, hst1]; simp
+            · rw [enters_cons_append, hent, List.filter_cons_of_pos haskb]
+              simp [enters]
+            · intro e he
+              rcases List.mem_append.1 he with he | he
+              · exact hshape e he
+              · simp only [List.mem_cons, List.not_mem_nil, or_false] at he
+                rcases he with rfl | rfl
+                · exact Or.inr ⟨_, rfl⟩
+                · exact Or.inl ⟨_, _, _, rfl⟩
+      · have haskb : asked b = false := by
+          simp only [not_or] at hask
+          simp only [asked, Bool.or_eq_false_iff, beq_eq_false_iff_ne, ne_eq]
+          exact ⟨⟨hask.1, by simpa using hask.2.1⟩, by simpa using hask.2.2⟩
+        rw [if_neg hask] at h
+        obtain ⟨hl, seg, hseg, hent, hshape⟩ := ih fuel st st' r hrest h
+        refine ⟨hl, seg, hseg, ?_, hshape⟩
+        rw [hent, List.filter_cons_of_neg (by simp [haskb])]
+
+theorem destroyLoop_noub {cfg : Cfg} : ∀ (rev : List Node) (fuel : Nat) (st : St) (w : String),
+    (∀ b ∈ rev, b.fn ≠ none) → exec cfg own beh fuel (.destroyLoop rev) st ≠ .ub w := by
+  intro rev
+  induction rev with
+  | nil =>
+    intro fuel st w _
+    cases fuel <;> simp [exec]
+  | cons b rest ih =>
+    intro fuel st w hfn
+    cases fuel with
+    | zero => simp [exec]
+    | succ fuel =>
+      simp only [exec]
+      have hrest : ∀ x ∈ rest, x.fn ≠ none := fun x hx => hfn x (List.mem_cons_of_mem _ hx)
+      split
+      · cases hfb : b.fn with
+        | none => exact absurd hfb (hfn b (List.mem_cons_self ..))
+        | some hh =>
+          cases hc : exec cfg own beh fuel (.call b.key (some hh) (EV_UNBIND + EV_DESTROY) 0) st with
+          | outOfFuel => simp
+          | ub w' => exact absurd hc (exec_call_destroy_noub own beh)
+          | ok p => obtain ⟨st1, r1⟩ := p; simp only; exact ih fuel st1 w hrest
+      · exact ih fuel st w hrest
+
+/-- Recording handler entries for destruction and exits keeps the trace well formed. -/
+theorem TraceOk.append_destroy {seg log : List Ev} (h : TraceOk log)
+    (hshape : ∀ e ∈ seg, (∃ k hh n, e = Ev.enter k hh n (EV_UNBIND + EV_DESTROY) 0) ∨ ∃ x, e = Ev.leave x) :
+    TraceOk (seg ++ log) := by
+  induction seg with
+  | nil => exact h
+  | cons e seg ih =>
+    refine ⟨?_, ih (fun x hx => hshape x (List.mem_cons_of_mem _ hx))⟩
+    rcases hshape e (List.mem_cons_self ..) with ⟨k, hh, n, rfl⟩ | ⟨x, rfl⟩
+    · exact ⟨fun ho => by simp [EV_UNBIND, EV_DESTROY] at ho, fun ho => by simp [EV_UNBIND, EV_DESTROY] at ho⟩
+    · trivial
+
+/-- What a whole history guarantees. -/
+def PostOps (ops : List Op) : Res St → Prop
+  | .ok st' => TraceOk st'.log ∧ (Op.destroy ∉ ops → Top st')
+  | .ub _ => False
+  | .outOfFuel => True
+
+theorem execOps_good (hb : NoDestroy beh) (fuel : Nat) : ∀ (ops : List Op) (st : St), (∀ op ∈ ops, OpOk op) → Top st →
+    PostOps ops (execOps Cfg.repaired own beh fuel ops st) := by
+  intro ops
+  induction ops with
+  | nil => intro st _ h; exact ⟨h.1.trace, fun _ => h⟩
+  | cons op rest ih =>
+    intro st hops h
+    simp only [execOps]
+    by_cases hd : op = .destroy
+    · subst hd
+      simp only [execOp]
+      have hfn : ∀ b ∈ st.list.reverse, b.fn ≠ none := fun b hb =>
+        h.1.liveFn b (List.mem_reverse.1 hb) (h.no_tombstones b (List.mem_reverse.1 hb))
+      cases hc : exec Cfg.repaired own beh fuel (.destroyLoop st.list.reverse) st with
+      | outOfFuel => trivial
+      | ub w => exact absurd hc (destroyLoop_noub own beh _ _ _ _ hfn)
+      | ok p =>
+        obtain ⟨st', r⟩ := p
+        simp only [Res.dropRet, if_true]
+        obtain ⟨_, seg, hseg, _, hshape⟩ := destroyLoop_spec own beh _ _ _ _ _ hfn hc
+        refine ⟨by rw [hseg]; exact h.1.trace.append_destroy hshape, fun hn => absurd (List.mem_cons_self ..) hn⟩
+    · have := execOp_good own beh hb fuel op (hops op (List.mem_cons_self ..)) hd st h
+      cases hc : execOp Cfg.repaired own beh fuel op st with
+      | outOfFuel => trivial
+      | ub w => rw [hc] at this; exact this.elim
+      | ok st' =>
+        rw [hc] at this
+        simp only [hd, if_false]
+        have hr := ih st' (fun o ho => hops o (List.mem_cons_of_mem _ ho)) this.1
+        cases hc2 : execOps Cfg.repaired own beh fuel rest st' with
+        | outOfFuel => trivial
+        | ub w => rw [hc2] at hr; exact hr.elim
+        | ok st'' =>
+          rw [hc2] at hr
+          exact ⟨hr.1, fun hn => hr.2 (fun hm => hn (List.mem_cons_of_mem _ hm))⟩
+
+end
 
 end Tickit.Bindings
